@@ -87,7 +87,7 @@ class Server:
     script: optional callable(conn, event) overriding everything (event = ('connect',) | ('msg', type, payload))"""
     def __init__(self, banner=b'SSH-2.0-OpenSSH_8.0', kexinit_payload=None, hostkeys=None, gex=None, pre_banner=b'',
                  raw_after_banner=None, banner_eol=b'\r\n', segment=None, stall_after_banner=False, refuse=False,
-                 close_on_connect=False, silent=False, probe_kexinit=None, rate_banner=True):
+                 close_on_connect=False, silent=False, probe_kexinit=None, rate_banner=True, close_after_send=False):
         self.banner = banner
         self.kexinit_payload = kexinit_payload
         self.hostkeys = hostkeys or {}
@@ -102,6 +102,7 @@ class Server:
         self.silent = silent
         self.probe_kexinit = probe_kexinit  # KEXINIT used on probe connections (default: same)
         self.rate_banner = rate_banner
+        self.close_after_send = close_after_send   # the peer closes right after its banner / scripted bytes
         self.log = []
         self.gexlog = []
         self.lock = threading.Lock()
@@ -153,6 +154,8 @@ class Conn:
             k = srv.kexinit_payload if (index == 0 or srv.probe_kexinit is None) else srv.probe_kexinit
             rest = pkt(k)
         self.push(first, rest)
+        if getattr(srv, 'close_after_send', False):
+            self.closed = True
 
     def push(self, *chunks):
         seg = self.srv.segment
@@ -167,7 +170,24 @@ class Conn:
                 cuts = [0] + [c for c in seg if 0 < c < len(data)] + [len(data)]
                 self.out.extend(data[a:b] for a, b in zip(cuts, cuts[1:]) if b > a)
 
-    def feed(self, data):
+    def feed(self, data, dead=False):
+        if dead:
+            self.dead_buf = getattr(self, 'dead_buf', b'') + data
+            if not self.got_banner:
+                i = self.dead_buf.find(b'\n')
+                if i < 0:
+                    return
+                self.got_banner = True
+                self.dead_buf = self.dead_buf[i + 1:]
+            while len(self.dead_buf) >= 5:
+                plen, pad = struct.unpack('>IB', self.dead_buf[:5])
+                if len(self.dead_buf) < 4 + plen:
+                    return
+                payload = self.dead_buf[5:4 + plen - pad]
+                self.dead_buf = self.dead_buf[4 + plen:]
+                if payload:
+                    self.msgs.append(payload[0])
+            return
         self.received += data
         self.inbuf += data
         if not self.got_banner:
@@ -280,7 +300,11 @@ class FakeSock:
             return e.errno
 
     def send(self, data):
-        if self.conn is None or self.conn.closed:
+        if self.conn is None:
+            raise BrokenPipeError(32, 'Broken pipe')
+        if self.conn.closed:
+            # the peer is gone: what the tool tried to send is still logged (message types only), nothing is answered
+            self.conn.feed(bytes(data), dead=True)
             raise BrokenPipeError(32, 'Broken pipe')
         self.conn.feed(bytes(data))
         return len(data)
